@@ -335,7 +335,7 @@ func runC14(t *T) {
 						}
 					}
 				}
-				if plan.fired > firedBefore && resultFailed(o, res) && (o.Kind == "Chmod" || o.Kind == "Chtimes" || o.H == "HChmod") && want != "" && !resultFailed(o, want) &&
+				if plan.fired > firedBefore && resultFailed(o, res) && (o.Kind == "Chmod" || o.Kind == "Chtimes" || o.H == "HChmod" || o.H == "HTruncate") && want != "" && !resultFailed(o, want) &&
 					!strings.HasPrefix(plan.firedAt, "Data") && !strings.HasPrefix(plan.firedAt, "ReadDirNames") && c.Chance(2, 3) { // (a failed lazy load is memoised by the handle's record: it may go on failing)
 					// what a caller does next: try the same thing again. The fault is gone, so the single-record update
 					// has to go through now, exactly as it did on the twin - not be skipped because the first attempt
